@@ -636,3 +636,5 @@ V("c18f-unknown-map-idiom-is-undecided", "C18", {"exit": 2},
    "            for occupation_numbers, coefficient in dict(other.params[\"fock_amplitude_map\"]).items():\n                coefficient *= other.params[\"coefficient\"]"))
 V("c07b-preserving-doc-tfrac", "C07", "silent",
   (GATES, "        S_{(c)} = \\frac{1}{2} \\begin{bmatrix}\n        e^{i \\phi_{ext} }", "        S_{(c)} = \\tfrac{1}{2} \\, \\begin{bmatrix}\n        e^{i \\phi_{ext} }"))
+V("c09b-at-update-result-discarded", "C09", {"rule": "C09b", "contains": "at-update-result-discarded"},
+  (JHERM, "    density_matrix = density_matrix.at[0, 0].set(c)\n", "    density_matrix.at[0, 0].set(c)\n"))
